@@ -825,4 +825,55 @@ theorem init_books (cfg : Cfg) (tsn peerRwnd : BitVec 32) : Books (init cfg tsn 
   · intro si; simp [bufOf, outstanding, init, bytesOf]
   · intro si st hs; simp [init] at hs
 
+
+theorem bytesOf_zero_iff (si : BitVec 16) (l : List Chunk) : bytesOf si l = 0 ↔ ∀ c ∈ l, c.si = si → c.len = 0 := by
+  induction l with
+  | nil => simp [bytesOf]
+  | cons x r ih =>
+    simp only [bytesOf, List.mem_cons, forall_eq_or_imp]
+    by_cases hx : x.si = si
+    · simp only [hx, if_true, forall_const]
+      rw [← ih]; omega
+    · simp only [hx, if_false, false_implies, true_and]
+      rw [← ih]; omega
+
+theorem sumLen_zero_iff (l : List Chunk) : sumLen l = 0 ↔ ∀ c ∈ l, c.len = 0 := by
+  induction l with
+  | nil => simp [sumLen]
+  | cons x r ih =>
+    simp only [sumLen, List.mem_cons, forall_eq_or_imp]
+    rw [← ih]; omega
+
+/-- `rollback` undoes `packetize` on the stream: buffered amount, SSN, both MID counters -/
+theorem rollback_packetize (cfg : Cfg) (st : Stream) (si : BitVec 16) (msg : Nat) (ppi : BitVec 32) (len : Nat) :
+    rollback cfg (packetize cfg st si msg ppi len).st (packetize cfg st si msg ppi len).unordered len = st := by
+  obtain ⟨reg, un, rt, rv, buf, th, hcb, cb, ssn, om, um⟩ := st
+  simp only [packetize, rollback]
+  cases hil : cfg.useInterleaving <;> cases hd : (ppi != BitVec.ofNat 32 PayloadTypeWebRTCDCEP) <;> cases un <;>
+    simp [BitVec.add_sub_cancel]
+
+/-- a write outside the established state is rolled back completely -/
+theorem write_rollback (s : St) (si : BitVec 16) (ppi : BitVec 32) (len : Nat) (h : s.established = false) :
+    (write s si ppi len).1.streams = s.streams ∧ (write s si ppi len).1.pending = s.pending ∧
+    (write s si ppi len).1.penBytes = s.penBytes ∧ (write s si ppi len).1.penChunks = s.penChunks ∧ (write s si ppi len).2.1 = 0 := by
+  unfold write
+  cases hs : s.streams si with
+  | none => simp
+  | some st =>
+    simp only
+    by_cases h1 : len > s.cfg.maxMessageSize.toNat
+    · simp [h1]
+    · by_cases h2 : len = 0
+      · simp [h2]
+      · by_cases hmp : s.cfg.maxPayload = 0
+        · simp [h1, h2, hmp]
+        · simp only [h1, h2, hmp, h, if_false, Bool.false_eq_true]
+          refine ⟨?_, ?_⟩
+          · funext k
+            simp only [setStream]
+            by_cases hk : k = si
+            · subst hk; simp only [if_true, hs, rollback_packetize]
+            · simp [hk]
+          · simp [setStream]
+
 end SenderProofs
